@@ -946,11 +946,12 @@ example : C09newBlockCost allSchemas asciiNFC [] = 2 ∧ C09requestCost allSchem
     C09blockGossipCost allSchemas asciiNFC [0x0a, 0x03, 0x0a, 0x01, 0x60] = 36 := by
   decide +kernel
 
-/-- a block header with the three lengths `Validate` checks, and the RawBlock carrying only it -/
+/-- a block header with the four lengths `Validate` checks (previous id, generator address, state root — since
+fix 4d58fae —, signature), and the RawBlock carrying only it -/
 def C09hdr : Bytes :=
-  [0x22, 0x20] ++ List.replicate 32 1 ++ [0x2a, 0x14] ++ List.replicate 20 2 ++ [0x7a, 0x40] ++
-    List.replicate 64 3
-def C09blk : Bytes := [0x0a, 0x7a] ++ C09hdr
+  [0x22, 0x20] ++ List.replicate 32 1 ++ [0x2a, 0x14] ++ List.replicate 20 2 ++ [0x4a, 0x20] ++
+    List.replicate 32 4 ++ [0x7a, 0x40] ++ List.replicate 64 3
+def C09blk : Bytes := [0x0a, 0x9c, 0x01] ++ C09hdr
 
 /-- the hypotheses of `C09_block_accept_handler_decodes` / `C09_block_gossip_accept_handler_decodes` /
 `C09_commits_nonreject_decodes` are satisfiable: with the constant hash function the block above is
@@ -959,7 +960,7 @@ part, an empty commit is rejected in the stateless front -/
 example :
     blockValidator allSchemas asciiNFC (fun _ => []) C09blk = .accept ∧
     gossip allSchemas asciiNFC Verdict.reject Verdict.panic
-      (blockValidator allSchemas asciiNFC (fun _ => [])) ([0x0a, 0x7c] ++ C09blk) = .accept ∧
+      (blockValidator allSchemas asciiNFC (fun _ => [])) ([0x0a, 0x9f, 0x01] ++ C09blk) = .accept ∧
     gossip allSchemas asciiNFC Verdict.reject Verdict.panic
       (transactionValidator allSchemas asciiNFC) ([0x0a, 0x70] ++ C09txFull) = .accept ∧
     commitsPrefix allSchemas asciiNFC
